@@ -1,16 +1,20 @@
 (* Correspondence for C10: a case is an operation history over [c_nl] lists together with what the real
    ds.List (both flavours; they agreed in the harness, as did container/list) returned and showed after
    every call: per list Len/Front/Back/Values/reverse Values, per allocated handle Prev/Next/Value. *)
-From Coq Require Import ZArith List Bool Arith.
+From Coq Require Import ZArith List Bool Arith Uint63.
 From Verif.C10_List Require Import Model.
 Import ListNotations.
 Open Scope Z_scope.
 
-Record lobs := lo { lo_len : Z; lo_front : option ptr; lo_back : option ptr; lo_vals : list Z; lo_rvals : list Z }.
-Record hobs := ho { ho_prev : option ptr; ho_next : option ptr; ho_val : Z }.
-(* s_out = None: the call panicked (then it is the last step and nothing else is compared);
-   s_hang: the thread-safe flavour did not return within the watchdog *)
-Record sobs := so { s_out : option out; s_hang : bool; s_lists : list lobs; s_handles : list hobs }.
+(* Observations are written flat, as one list of Z per step (big structured literals are slow to parse):
+   a pointer is -1000000 for nil, n for El n, -(l+1) for Root l;
+   per list: Len, Front, Back, |Values|, Values..., |reverse Values|, reverse Values...;
+   then per allocated handle El 0 .. El (fresh-1): Prev, Next, Value.
+   s_out = None: the call panicked (then it is the last step and nothing else is compared);
+   s_hang: the thread-safe flavour did not return within the watchdog;
+   s_fp = true: s_flat holds only the two fingerprints [fp 1000003 17; fp 69069 23] of the flat list
+   (Coq parses ~10^4 numerals per second, so most cases carry fingerprints and a share the full list) *)
+Record sobs := so { s_out : option out; s_hang : bool; s_fp : bool; s_flat : list Z }.
 Record case := mkc { c_nl : nat; c_hist : list op; c_obs : list sobs }.
 
 Definition out_eqb (a b : out) : bool :=
@@ -29,24 +33,31 @@ Fixpoint zlist_eqb (a b : list Z) : bool :=
   | _, _ => false
   end.
 
-Definition lobs_of st l : lobs := lo (len st l) (front st l) (back st l) (values st l) (values_rev st l).
-Definition lobs_eqb (a b : lobs) : bool :=
-  (lo_len a =? lo_len b) && optptr_eqb (lo_front a) (lo_front b) && optptr_eqb (lo_back a) (lo_back b)
-  && zlist_eqb (lo_vals a) (lo_vals b) && zlist_eqb (lo_rvals a) (lo_rvals b).
-Definition hobs_of st n : hobs := ho (elem_prev st (El n)) (elem_next st (El n)) (value_of st (El n)).
-Definition hobs_eqb (a b : hobs) : bool :=
-  optptr_eqb (ho_prev a) (ho_prev b) && optptr_eqb (ho_next a) (ho_next b) && (ho_val a =? ho_val b).
-
-Fixpoint all2 {A} (f : A -> A -> bool) (a b : list A) : bool :=
-  match a, b with
-  | [], [] => true
-  | x :: a', y :: b' => f x y && all2 f a' b'
-  | _, _ => false
+Definition enc_ptr (p : option ptr) : Z :=
+  match p with
+  | None => -1000000
+  | Some (El n) => Z.of_nat n
+  | Some (Root l) => - Z.of_nat (S l)
   end.
 
+Definition lobs_of st l : list Z :=
+  [len st l; enc_ptr (front st l); enc_ptr (back st l)]
+  ++ Z.of_nat (length (values st l)) :: values st l
+  ++ Z.of_nat (length (values_rev st l)) :: values_rev st l.
+Definition hobs_of st n : list Z :=
+  [enc_ptr (elem_prev st (El n)); enc_ptr (elem_next st (El n)); value_of st (El n)].
+
+Definition flat_obs (nl : nat) st : list Z :=
+  concat (map (lobs_of st) (seq 0 nl)) ++ concat (map (hobs_of st) (seq 0 (fresh st))).
+
+(* multiplicative hash modulo 2^63 on primitive integers (fast under vm_compute); the top 30 bits are kept *)
+Definition fp (mul start : Z) (xs : list Z) : Z :=
+  let m := Uint63.of_Z mul in
+  Uint63.to_Z (Uint63.lsr (fold_left (fun h x => Uint63.add (Uint63.mul h m) (Uint63.of_Z (x + 2000000))) xs (Uint63.of_Z start)) 33%uint63).
+
 Definition obs_eqb (nl : nat) st (ob : sobs) : bool :=
-  all2 lobs_eqb (map (lobs_of st) (seq 0 nl)) (s_lists ob)
-  && all2 hobs_eqb (map (hobs_of st) (seq 0 (fresh st))) (s_handles ob).
+  let f := flat_obs nl st in
+  if s_fp ob then zlist_eqb [fp 1000003 17 f; fp 69069 23 f] (s_flat ob) else zlist_eqb f (s_flat ob).
 
 Definition hangs (r : res) : bool := match r with Deadlock => true | Done _ => false end.
 
